@@ -209,7 +209,22 @@ func (c *Ctx) ctxUserFirst(rule string) {
 			r.Bad(rule, name, "ctx[user] consulted", c.P.Pos(fn.Pos()), "the user attached to the request is never consulted: handlers that ask whom a flow is acting on get the session's identity instead")
 			continue
 		}
-		isAttached := func(v ssa.Value) bool {
+		var isAttached func(v ssa.Value) bool
+		isAttached = func(v ssa.Value) bool {
+			if phi, ok := v.(*ssa.Phi); ok {
+				// handed out of a helper: nil on its "none" path, the attached user otherwise
+				n := 0
+				for _, e := range phi.Edges {
+					if IsNilConst(e) {
+						continue
+					}
+					if e == v || !isAttached(e) {
+						return false
+					}
+					n++
+				}
+				return n > 0
+			}
 			for {
 				switch x := v.(type) {
 				case *ssa.TypeAssert:
@@ -442,5 +457,69 @@ func (c *Ctx) halfAuthUpgradeGated(rule string) {
 	}
 	if n < 3 {
 		r.Unknown(rule, "", "census", "-", sprintf("only %d removals of the half-auth mark found in the login flows (confirmed by hand: 6)", n))
+	}
+}
+
+// lockEnforced: every interactive login is gated by the not-handled outcome
+// of a Before event on which lock registers its veto — "stays locked for
+// LockDuration" means nothing if a flow can issue the session before (or
+// without) asking.
+func (c *Ctx) lockEnforced(rule string) {
+	r := c.R
+	if c.P.ByPath[RepoPath+"/lock"] == nil {
+		return
+	}
+	listens := map[int64]*ssa.Function{}
+	for _, w := range c.wiring {
+		if w.Before && w.Const && !w.Conditional && pkgOf(w.In) == "ab/lock" && w.Handler != nil {
+			listens[w.Event] = w.Handler
+		}
+	}
+	if len(listens) == 0 {
+		r.Bad(rule, "ab/lock", "Before(*)", "-", "lock registers no veto at all")
+		return
+	}
+	n := 0
+	for _, s := range c.Issuances() {
+		if !s.Op.Const {
+			continue
+		}
+		creds := c.CredsAt(s.Op.Call)
+		if !isInteractive(creds) {
+			continue
+		}
+		n++
+		covered := ""
+		gates := c.gateFires(s.Op.Call)
+		for _, g := range gates {
+			if h := listens[g.Event]; h != nil {
+				covered = c.EventName(g.Event)
+			}
+		}
+		r.Check(covered != "", rule, FuncName(s.Fn), "PutSession(uid) behind the lock veto", posf(c, s.Op.Call), "gated by not-handled of FireBefore("+covered+")", "the session is written without (or before) the not-handled outcome of an event lock vetoes on (gates seen: "+c.fireNames(gates)+"): a locked account gets the session, the veto's redirect flushes it")
+	}
+	if n == 0 {
+		r.Unknown(rule, "", "sites", "-", "no interactive issuance site found")
+	}
+}
+
+// vetoesFirst: the handlers consulted on Before(EventAuth) are the vetoes
+// (lock, confirm). A handler of another module there — a second-factor
+// hand-over belongs on EventAuthHijack, which is fired after the vetoes — can
+// answer a correct password before lock has given its (password-independent)
+// verdict: a locked account's response then depends on the password.
+func (c *Ctx) vetoesFirst(rule string) {
+	r := c.R
+	n := 0
+	for _, w := range c.wiring {
+		if !w.Before || !w.Const || w.Event != c.Event("EventAuth") || strings.HasSuffix(pkgOf(w.In), "/mocks") {
+			continue
+		}
+		n++
+		pk := pkgOf(w.In)
+		r.Check(pk == "ab/lock" || pk == "ab/confirm", rule, FuncName(w.In), "Before(EventAuth)->"+w.Name, posf(c, w.Call), "a veto module", "a module other than lock/confirm ("+pk+") answers on Before(EventAuth): depending on initialisation order it runs ahead of lock's veto and responds to correct passwords only")
+	}
+	if n == 0 {
+		r.Unknown(rule, "", "Before(EventAuth)", "-", "no registration on Before(EventAuth) found")
 	}
 }
